@@ -136,6 +136,12 @@ def check_case(case):
             vs.append(C.viol("count", k2, {"n": n, "loaded": l.user_defined_controllers}, case))
         if dm is not None:
             vs += structural(dm, n, spec.get("labels"), k2, case)
+            # the stored word of a mapped controller, as documented: value minus a negative minimum of the range it mirrors
+            for slot, raw in (spec.get("expect_raw") or {}).items():
+                words = dm["cvals_raw"]
+                if len(words) <= 5 + int(slot) or words[5 + int(slot)] != raw:
+                    vs.append(C.viol("stored-word-of-mapped-controller", k2,
+                                     {"slot": int(slot), "expected": raw, "stored": words[5:]}, case))
             if dec.problems:
                 probs = [p for p in dec.problems if "options record length" not in p]
                 if probs:
@@ -188,6 +194,19 @@ def object_cases(ctx):
         add("branch", {"children": [mid, {"child": leaf}], "inner": [["Reverb", []]], "n": 3})
     for n in range(0, 97):
         add("count", {"n": n, "inner": [["Amplifier", []]]})
+    # ALL n controllers mapped, each with its own stored value and label (values that differ per slot show any
+    # permutation of the slots between writer and reader, e.g. 1, 10, 11, ... 2 for n >= 10)
+    for n in (1, 2, 9, 10, 11, 12, 27, 95, 96):
+        add("count-distinct-values", {"n": n, "inner": [["Amplifier", []]], "maps": [[i, 1, 0] for i in range(n)],
+                                      "values": {str(i): 100 + 7 * i for i in range(n)},
+                                      "labels": {str(i): f"L{i}" for i in range(n)}})
+    # a user-defined controller mapped onto a user-defined controller of a NESTED MetaModule (a chain of proxies)
+    for ty, attr, v in (("MultiSynth", "transpose", -5), ("Amplifier", "balance", -100), ("Amplifier", "volume", 300)):
+        leaf = {"inner": [[ty, [{"k": "ctl", "n": attr, "v": v}]]], "n": 1, "maps": [[0, 1, ctl_index(ty, attr)]]}
+        raw = v + 128 if v < 0 else v       # transpose and balance both range -128..128
+        add("mapping-chain", {"child": leaf, "n": 1, "maps": [[0, 1, 5]], "expect_raw": {"0": raw}})
+        add("mapping-chain", {"child": {"child": leaf, "n": 2, "maps": [[1, 1, 5]], "expect_raw": {"1": raw}}, "n": 1,
+                              "maps": [[0, 1, 6]], "expect_raw": {"0": raw}})
     for n in (0, 1, 2, 95, 96):
         slots = sorted({0, max(0, n - 1)}) if n else []
         for kind, (ty, attr) in TARGETS.items():
